@@ -1,9 +1,11 @@
-"""Sidecar for labella/removeOverlap.py (C01, C02, C03).
+"""Sidecar for labella/removeOverlap.py (C01, C02, C03, C06, C08).
 
-removeOverlap itself is NOT under contract yet (list comprehensions over symbolic-length lists, list.sort(key=...),
-list concatenation): its construction of the constraint chain is checked by the bounded drivers c01-c03 only.
-What is proved here are the property-level lemmas (T3) that connect the verified solver contract
-(vpsc.Solver.solve: every un-flagged constraint holds, contracts/vpsc.py) to the statement of C01.
+Under contract: nodeToVariable and removeOverlap itself for all four bound configurations (targets, sort, one unit-weight
+variable per item, chain of gap constraints, wall variables, the solver's preconditions, the rounding loop; cases 0 and 2
+under the function's own key, the upper-bound cases under the alias key `@upper_bound`); end-to-end rounding / neighbour
+separation clauses for the configuration without bounds in the thorough tier.  T3: the property-level lemmas that connect the
+verified solver contract (vpsc.Solver.solve: every un-flagged constraint holds, contracts/vpsc.py) to the statement of C01.
+Status and what stays bounded: DESIGN.md section 6 (C01).
 """
 import z3
 
